@@ -9,6 +9,7 @@ FEAS_RLIMIT = int(os.environ.get("PYVC_FEAS_RLIMIT", 3_000_000))
 VC_RLIMIT = int(os.environ.get("PYVC_VC_RLIMIT", 60_000_000))
 FEAS_TIMEOUT_MS = 20_000
 VC_TIMEOUT_MS = 120_000
+VC_BUDGET_S = float(os.environ.get("PYVC_VC_BUDGET_S", 150))
 
 
 class Stats:
@@ -18,6 +19,7 @@ class Stats:
         self.vc_calls = 0
         self.unknown_feas = 0
         self.model_hits = 0
+        self.unknown_vcs = 0
         self.cross = {"checked": 0, "agree": 0, "disagree": 0, "unknown": 0, "error": 0, "seconds": 0.0}
 
 
@@ -25,13 +27,23 @@ STATS = Stats()
 
 
 def check(assertions, rlimit, timeout_ms):
+    import threading
     s = z3.Solver()
     s.set("rlimit", rlimit)
     s.set("timeout", timeout_ms)
     for a in assertions:
         s.add(a)
     t0 = time.time()
-    r = s.check()
+    wd = threading.Timer(timeout_ms / 1000.0 + 5, z3.main_ctx().interrupt)     # see _solve: the solver's own timeout is not always honoured
+    wd.daemon = True
+    wd.start()
+    try:
+        try:
+            r = s.check()
+        except z3.Z3Exception:
+            r = z3.unknown
+    finally:
+        wd.cancel()
     STATS.solver_s += time.time() - t0
     return r, s
 
@@ -295,12 +307,28 @@ class TransModel:
         return self.model[d]
 
 
-def _solve(asserts, ctx, rlimit, seed=None):
+def _solve(asserts, ctx, rlimit, seed=None, timeout_ms=None):
     s = z3.Solver(ctx=ctx)
     s.set("rlimit", rlimit)
-    s.set("timeout", VC_TIMEOUT_MS)
+    s.set("timeout", int(timeout_ms if timeout_ms is not None else VC_TIMEOUT_MS))
     if seed is not None:
         s.set("random_seed", seed)
+    # z3's own timeout is not honoured in every phase of the nonlinear solver (a query was seen running ten minutes past a 120 s limit):
+    # a watchdog interrupts the context shortly after the limit; the check then returns unknown ("canceled" / "interrupted")
+    import threading
+    limit_s = (timeout_ms if timeout_ms is not None else VC_TIMEOUT_MS) / 1000.0 + 5
+    wd = threading.Timer(limit_s, ctx.interrupt)
+    wd.daemon = True
+    wd.start()
+    try:
+        for a in asserts:
+            s.add(a)
+        try:
+            return s.check(), s
+        except z3.Z3Exception:
+            return z3.unknown, s
+    finally:
+        wd.cancel()
     for a in asserts:
         s.add(a)
     return s.check(), s
@@ -325,7 +353,7 @@ def _ite_conditions(asserts, limit=6):
     return out
 
 
-def _solve_by_ite_cases(asserts, ctx, rlimit):
+def _solve_by_ite_cases(asserts, ctx, rlimit, wall_s=240):
     """complete case split over the truth values of the ite conditions: all cases unsat => unsat; a sat case => sat
     (the case's condition values are asserted, so its model is a model of the original assertions)"""
     conds = _ite_conditions(asserts)
@@ -334,12 +362,15 @@ def _solve_by_ite_cases(asserts, ctx, rlimit):
     tt, ff = z3.BoolVal(True, ctx), z3.BoolVal(False, ctx)
     import itertools
     budget = max(rlimit // (2 ** len(conds)), rlimit // 8)
+    t_start = time.time()
     for vals in itertools.product((True, False), repeat=len(conds)):
+        if time.time() - t_start > wall_s:
+            return z3.unknown, None
         sub = [(c, tt if v else ff) for c, v in zip(conds, vals)]
         case = [z3.simplify(z3.substitute(a, *sub)) for a in asserts] + [c if v else z3.Not(c) for c, v in zip(conds, vals)]
         if any(z3.is_false(a) for a in case):
             continue
-        r, s = _solve(case, ctx, budget)
+        r, s = _solve(case, ctx, budget, None, max(2000, (wall_s - (time.time() - t_start)) * 1000))
         if r == z3.sat:
             return r, s
         if r == z3.unknown:
@@ -359,21 +390,32 @@ def discharge(vc: VC):
     # the obligation's text only, not on whatever terms the exploration left alive in the shared context
     ctx = z3.Context()
     asserts = [a.translate(ctx) for a in vc.pc] + [z3.Not(vc.goal).translate(ctx)]
-    r, s = _solve(asserts, ctx, VC_RLIMIT // 10)
+    r, s = _solve(asserts, ctx, VC_RLIMIT // 10, None, 40_000)
     how = "direct"
+    if r == z3.unknown and STATS.unknown_vcs >= 1:
+        # this task has already left several obligations undecided after the full escalation (a changed function can make a whole family
+        # of obligations hard at once): the remaining ones get the direct attempt only, so that the run ends and the native samples —
+        # which decide such cases on the real code — are reached.  Undecided is never a pass.
+        STATS.solver_s += time.time() - t0
+        vc.seconds = time.time() - t0
+        vc.verdict, vc.reason = "unknown", "direct attempt only (earlier obligations of this task exhausted the escalation)"
+        STATS.unknown_vcs += 1
+        return vc
     if r == z3.unknown:
-        # nonlinear obligations with if-then-else terms: decide each combination of the ite conditions separately
-        r2, s2 = _solve_by_ite_cases(asserts, ctx, VC_RLIMIT)
+        # escalation under a wall-clock budget per obligation (VC_BUDGET_S): if-then-else case split, the full rlimit, other random seeds
+        # (nonlinear queries near the budget are unstable: the same text is decided in seconds or not at all depending on the solver's
+        # internal choices; any decided attempt is a sound verdict)
+        left = lambda: VC_BUDGET_S - (time.time() - t0)
+        r2, s2 = _solve_by_ite_cases(asserts, ctx, VC_RLIMIT, max(10, left() / 2))
         if r2 != z3.unknown:
             r, s, how = r2, s2, "ite-case-split"
         else:
-            r, s = _solve(asserts, ctx, VC_RLIMIT)
-            # nonlinear queries near the budget are unstable (the same text is decided in seconds or not at all depending on the
-            # solver's internal choices): a few more attempts with other random seeds; any decided attempt is a sound verdict
+            if left() > 5:
+                r, s = _solve(asserts, ctx, VC_RLIMIT, None, min(VC_TIMEOUT_MS, left() * 1000))
             for seed in (7, 101, 4242):
-                if r != z3.unknown:
+                if r != z3.unknown or left() < 5:
                     break
-                r, s = _solve(asserts, ctx, VC_RLIMIT, seed)
+                r, s = _solve(asserts, ctx, VC_RLIMIT, seed, min(VC_TIMEOUT_MS, left() * 1000))
                 how = f"retry(seed={seed})"
     STATS.solver_s += time.time() - t0
     vc.seconds = time.time() - t0
@@ -393,6 +435,7 @@ def discharge(vc: VC):
     else:
         vc.verdict = "unknown"
         vc.reason = s.reason_unknown() if s is not None else "unknown"
+        STATS.unknown_vcs += 1
     return vc
 
 
